@@ -25,6 +25,7 @@ public:
 } // namespace
 
 World* makeWorld(const std::string& property) {
+  if (property == "C04") return new SplitWorld(wa::makeEngineWorld(property), wb::makeBsWorld(property), 4);
   if (property == "C05") return new SplitWorld(wa::makeEngineWorld(property), wb::makeBsWorld(property), 4);
   if (property == "C01" || property == "C02" || property == "C03" || property == "C04" || property == "C05" ||
       property == "C06" || property == "C07" || property == "C20")
